@@ -34,6 +34,14 @@ struct Planted {
     recursion: usize,
     overflow_selfcall: Option<(u64, Vec<String>)>,
     in_submodule: bool,
+    /// budget sweep: the run may stop at any card; per call level the ids of its cards, its namespace and the call card
+    /// that leads to the next level; ids of cards that have no instructions of their own
+    sweep: Option<Sweep>,
+}
+
+struct Sweep {
+    levels: Vec<(Vec<u64>, Vec<String>, Option<u64>)>,
+    no_code_ids: Vec<u64>,
 }
 
 fn ids_of(c: &Card, out: &mut Vec<u64>) {
@@ -112,6 +120,9 @@ fn wrap_stmt(rng: &mut Prng, s: Card) -> (Vec<Card>, String) {
 }
 
 fn plant(seed: u64) -> Planted {
+    if seed % 7 == 3 {
+        return plant_sweep(seed);
+    }
     let mut rng = Prng::new(seed);
     let rng = &mut rng;
     let depth = rng.below(5);
@@ -159,7 +170,16 @@ fn plant(seed: u64) -> Planted {
     } else {
         // compile-time faults attributable to a card
         expect_compile_error = true;
-        let (c, k): (Card, &str) = match rng.below(5) {
+        let (c, k): (Card, &str) = match rng.below(6) {
+            5 => {
+                // an empty loop-variable name: the ForEach card is the offender, not its body
+                let (i, kk, v) = match rng.below(3) {
+                    0 => (Some(""), None, None),
+                    1 => (None, Some(""), Some("v")),
+                    _ => (Some("i"), Some("k"), Some("")),
+                };
+                (foreach(i, kk, v, native("pair", vec![int(1), int(2)]), comp(vec![setg("seen", int(1))])), "compile:foreach-empty-variable")
+            }
             0 => (call("no_such_function", vec![]), "compile:unknown-function-call"),
             1 => (CardBody::Function("no.such".into()).into(), "compile:unknown-function-value"),
             2 => (set("", int(1)), "compile:empty-setvar"),
@@ -167,7 +187,7 @@ fn plant(seed: u64) -> Planted {
             _ => (setg("", int(1)), "compile:empty-setglobal"),
         };
         let id = c.id.0;
-        let is_stmt = matches!(c.body, CardBody::SetVar(_) | CardBody::SetGlobalVar(_));
+        let is_stmt = matches!(c.body, CardBody::SetVar(_) | CardBody::SetGlobalVar(_) | CardBody::ForEach(_));
         let (cards, ctx) = if is_stmt { wrap_stmt(rng, c) } else { wrap_expr(rng, c) };
         (cards, vec![id], k.to_string(), ctx)
     };
@@ -299,6 +319,96 @@ fn plant(seed: u64) -> Planted {
         in_submodule,
         recursion,
         overflow_selfcall,
+        sweep: None,
+    }
+}
+
+/// main -> c1 -> ... -> c_depth, every level works a little before and after its call; main calls c1 forever.
+/// The budget is what varies: the Timeout lands on any instruction, including calls and returns.
+fn plant_sweep(seed: u64) -> Planted {
+    let mut rng = Prng::new(seed ^ 0x5eed);
+    let rng = &mut rng;
+    let depth = rng.range(1, 4) as usize;
+    let in_submodule = rng.chance(1, 3);
+    let in_lib = |k: usize| in_submodule && k % 2 == 1;
+    let ns_of = |k: usize| -> Vec<String> { if k > 0 && in_lib(k) { vec!["lib".to_string()] } else { vec![] } };
+    let fname = |k: usize| format!("c{k}");
+    let mut root = Module::default();
+    let mut lib = Module::default();
+    let mut levels: Vec<(Vec<u64>, Vec<String>, Option<u64>)> = Vec::new();
+    let mut no_code: Vec<u64> = Vec::new();
+    for k in 0..=depth {
+        let mut cards = vec![set("_", nil()), set("x", int(k as i64))];
+        let work = |rng: &mut Prng, no_code: &mut Vec<u64>| -> Card {
+            match rng.below(4) {
+                0 => set("x", bin("add", read("x"), int(1))),
+                1 => {
+                    let c: Card = CardBody::Comment("nothing".into()).into();
+                    no_code.push(c.id.0);
+                    foreach(Some("i"), Some("k"), Some("v"), native("pair", vec![int(1), int(2)]), c)
+                }
+                2 => repeat(int(2), Some("j"), comp(vec![set("x", bin("add", read("x"), read("j")))])),
+                _ => bin("iftrue", bin("less", int(0), read("x")), comp(vec![set("x", bin("sub", read("x"), int(1)))])),
+            }
+        };
+        for _ in 0..rng.below(3) {
+            cards.push(work(rng, &mut no_code));
+        }
+        let mut call_id = None;
+        if k < depth {
+            let callee = fname(k + 1);
+            let target = if in_lib(k + 1) && !in_lib(k) { format!("lib.{callee}") } else { callee };
+            let callc = if rng.chance(1, 3) { dyncall(CardBody::Function(target).into(), vec![int(k as i64)]) } else { call(&target, vec![int(k as i64)]) };
+            call_id = Some(callc.id.0);
+            let stmt = match rng.below(3) {
+                0 => discard(callc),
+                1 => set("x", bin("add", read("x"), callc)),
+                _ => bin("iftrue", int(1), comp(vec![discard(callc)])),
+            };
+            if k == 0 {
+                cards.push(bin("while", int(1), comp(vec![stmt])));
+            } else {
+                cards.push(stmt);
+            }
+        }
+        for _ in 0..rng.below(3) {
+            cards.push(work(rng, &mut no_code));
+        }
+        if k > 0 {
+            cards.push(un("ret", read("x")));
+        } else if depth == 0 {
+            cards.push(bin("while", int(1), comp(vec![set("x", int(1))])));
+        }
+        let mut ids = Vec::new();
+        for c in cards.iter() {
+            ids_of(c, &mut ids);
+        }
+        levels.push((ids, ns_of(k), call_id));
+        let f = if k == 0 { ("main".to_string(), func(&[], cards)) } else { (fname(k), func(&["d"], cards)) };
+        if k > 0 && in_lib(k) {
+            lib.functions.push(f);
+        } else {
+            root.functions.push(f);
+        }
+    }
+    if in_submodule {
+        root.submodules.push(("lib".into(), lib));
+    }
+    Planted {
+        module: root,
+        fault_ids: vec![],
+        fault_namespace: vec![],
+        chain: vec![],
+        kind: "timeout-budget-sweep".into(),
+        context: "anywhere".into(),
+        expect_compile_error: false,
+        budget: rng.range(3, 700) as u64,
+        memory_limit: 1 << 24,
+        depth,
+        in_submodule,
+        recursion: 0,
+        overflow_selfcall: None,
+        sweep: Some(Sweep { levels, no_code_ids: no_code }),
     }
 }
 
@@ -390,6 +500,45 @@ impl Engine for TraceEngine {
         obs.inc(&format!("error:{}", crate::dval::err_kind(&err.payload).split('[').next().unwrap_or("?")));
         if err.trace.is_empty() {
             return Verdict::violation(format!("C15:empty-trace:{}", p.kind), format!("{}: the error has no trace", err.payload));
+        }
+        if let Some(sw) = &p.sweep {
+            if !matches!(err.payload, ExecutionErrorPayload::Timeout) {
+                return Verdict::Inconclusive { reason: format!("the sweep program ended with {}", crate::dval::err_kind(&err.payload)) };
+            }
+            let t0 = &err.trace[0];
+            let ns0: Vec<String> = t0.namespace.iter().map(|s| s.to_string()).collect();
+            let id0 = match resolve(&p.module, &ns0, &t0.index) {
+                Ok(id) => id,
+                Err(why) => return Verdict::violation("C15:sweep:unresolvable", format!("budget {}: trace[0] = {}/{} does not resolve: {why}", p.budget, ns0.join("."), t0.index)),
+            };
+            if sw.no_code_ids.contains(&id0) {
+                return Verdict::violation("C15:sweep:card-without-instructions", format!("budget {}: trace[0] = {}/{} resolves to a Comment card, which has no instruction that could have raised the error", p.budget, ns0.join("."), t0.index));
+            }
+            let Some(level) = sw.levels.iter().position(|(ids, ns, _)| ids.contains(&id0) && *ns == ns0) else {
+                return Verdict::violation("C15:sweep:wrong-function", format!("budget {}: trace[0] = {}/{} resolves to card {id0}, which is not a card of a function with that namespace", p.budget, ns0.join("."), t0.index));
+            };
+            // the active call chain when a card of level k runs: the call cards of levels k-1 .. 0
+            let expected: Vec<(u64, Vec<String>)> = (0..level).rev().map(|k| (sw.levels[k].2.unwrap(), sw.levels[k].1.clone())).collect();
+            let call_ids: Vec<u64> = sw.levels.iter().filter_map(|l| l.2).collect();
+            let mut got: Vec<(u64, Vec<String>)> = Vec::new();
+            for t in err.trace.iter().skip(1) {
+                let ns: Vec<String> = t.namespace.iter().map(|s| s.to_string()).collect();
+                if let Ok(id) = resolve(&p.module, &ns, &t.index) {
+                    if call_ids.contains(&id) {
+                        got.push((id, ns));
+                    }
+                }
+            }
+            if got != expected {
+                return Verdict::violation(
+                    "C15:sweep:chain",
+                    format!("budget {}: the run stopped in level {level} of main -> c1 -> ... (trace[0] = card {id0}); the call cards in trace[1..] are {:?}, the active chain is {:?}", p.budget, got.iter().map(|g| g.0).collect::<Vec<_>>(), expected.iter().map(|g| g.0).collect::<Vec<_>>()),
+                );
+            }
+            obs.inc(&format!("sweep:stopped_in_level:{level}"));
+            obs.add("chain_entries_checked", expected.len() as u64);
+            obs.nontrivial = true;
+            return Verdict::Ok;
         }
         // trace[0]: the failing card
         let t0 = &err.trace[0];
